@@ -191,6 +191,7 @@ struct World<'a> {
     fillers: Vec<u32>,
     store: HashMap<(bool, i64, i64), Sent>, // (is_rtcp, model ssrc, model idx)
     wire_diverged: bool,
+    opendev: bool,
     rtcp_wire: HashMap<i64, Vec<u32>>,      // SRTCP indices the rustrtc sender used so far, per model ssrc
     small: bool,
     few: bool,
@@ -260,6 +261,7 @@ impl<'a> World<'a> {
             fillers: Vec::new(),
             store: HashMap::new(),
             wire_diverged: false,
+            opendev: cfg["opendev"].as_i64() == Some(1),
             rtcp_wire: HashMap::new(),
             small,
             few,
@@ -394,8 +396,8 @@ impl<'a> World<'a> {
         let ssrc = self.ssrc_map[&k];
         // `must && !acc` only arises in models generated with the open deviation EvictLosesState: the sender context
         // was evicted and put another index on the wire than the application meant (KF-C04-2, sender side)
-        let tx_lost = must && !acc && !replay;
-        let demand = must && !replay && acc;
+        let tx_lost = self.opendev && must && !acc && !replay;
+        let demand = must && !replay && !tx_lost;
 
         // world rr: rustrtc -> rustrtc
         self.evals += 1;
